@@ -4,6 +4,13 @@ package c20
 // synchronous) runs against RPC / auth / tx-query / price-service stubs whose outcomes per broadcast attempt are
 // drawn. Whatever happens, afterwards the submission's signals must have left the pending set and the key must be
 // back in the idle pool.
+//
+// Several nodes (Nodes): grogu broadcasts every tx to all configured nodes and goes on with the answer of any node
+// that accepted it. Each stub node has a behaviour of its own: healthy (follows the drawn outcome of the attempt),
+// healthy but slow, fails at once (connection refused), fails after a while, or refuses with a CheckTx code. Oracle
+// (6): once a node has accepted the tx of an attempt (CheckTx code 0), the same prices are not broadcast again
+// before the submitter has looked for that tx at least once, and not at all once the tx query has shown it executed
+// with code 0. Both halves are decided by what the stubs were asked and answered, never by the clock.
 
 import (
 	"context"
@@ -89,13 +96,37 @@ type submitCase struct {
 	Seq      uint64    `json:"seq"`
 	Other    []int     `json:"other"` // unrelated signals that are pending throughout
 	Subs     []subSpec `json:"subs"`
+	// Nodes (if not empty, replaces NClients/Second): behaviour per configured node, in the daemon's order
+	Nodes []int `json:"nodes,omitempty"`
 }
+
+// node behaviours
+const (
+	nodeHealthy     = iota // answers according to the drawn outcome of the attempt
+	nodeFailFast           // every call fails at once with a transport error
+	nodeCode               // simulation works, broadcast is refused with CheckTx code 5
+	nodeFailSlow           // every call fails with a transport error after a short while
+	nodeHealthySlow        // as healthy, but broadcast answers after a short while
+	nNodeKinds
+)
+
+var nodeKindName = []string{"healthy", "fail_fast", "checktx_code", "fail_slow", "healthy_slow"}
+
+const nodeSlowness = 400 * time.Microsecond
 
 func genSubmit(rt *rapid.T) submitCase {
 	c := submitCase{}
 	c.NKeys = gen.Range(rt, "nkeys", 1, 3)
 	c.NClients = gen.OneOf(rt, "nclients", 1, 1, 2)
 	c.Second = gen.Uniform(rt, "second", 3)
+	if gen.Chance(rt, "multinode", 1, 2) {
+		for i, n := 0, gen.OneOf(rt, "nnodes", 2, 2, 2, 3, 3, 1); i < n; i++ {
+			c.Nodes = append(c.Nodes, gen.Pick(rt, "nodekind", 30, 30, 10, 10, 20))
+		}
+		if gen.Chance(rt, "onehealthy", 3, 4) { // usually at least one node works
+			c.Nodes[gen.Uniform(rt, "healthyat", len(c.Nodes))] = gen.OneOf(rt, "healthykind", nodeHealthy, nodeHealthySlow, nodeHealthySlow)
+		}
+	}
 	c.MaxTry = gen.OneOf[uint64](rt, "maxtry", 1, 2, 3, 3, 5, 5, 5, 0)
 	c.GasUsed = gen.OneOf[uint64](rt, "gas", 1, 100, 80_000, 0)
 	if c.GasUsed == 0 && !gen.Chance(rt, "gas0", 1, 4) {
@@ -199,6 +230,10 @@ type submitWorld struct {
 	msgOK     int64
 	validator string
 	msgBad    int64
+	accepted  map[int64]int  // attempt -> nodes that accepted its broadcast (CheckTx code 0)
+	txQueried map[string]int // lower-case tx hash -> tx queries made for it
+	txShownOK map[string]int // lower-case tx hash -> tx queries answered "executed with code 0"
+	nodeCalls map[int]int    // node kind -> broadcast calls
 }
 
 func (w *submitWorld) outcome() int {
@@ -237,6 +272,7 @@ func (w *submitWorld) QueryAccount(address sdk.Address) (*authtypes.QueryAccount
 func (w *submitWorld) QueryTx(hash string) (*sdk.TxResponse, error) {
 	w.mu.Lock()
 	defer w.mu.Unlock()
+	w.txQueried[strings.ToLower(hash)]++
 	i := w.attempt.Load()
 	if !strings.EqualFold(hash, hex.EncodeToString(hashOf(i))) {
 		return nil, fmt.Errorf("tx %s not found", hash)
@@ -259,6 +295,7 @@ func (w *submitWorld) QueryTx(hash string) (*sdk.TxResponse, error) {
 	case oTxOOG:
 		return &sdk.TxResponse{TxHash: hash, Code: sdkerrors.ErrOutOfGas.ABCICode(), Codespace: sdkerrors.RootCodespace}, nil
 	default:
+		w.txShownOK[strings.ToLower(hash)]++
 		return &sdk.TxResponse{TxHash: hash, Code: 0}, nil
 	}
 }
@@ -293,12 +330,17 @@ type rpcStub struct {
 	rpcclient.RemoteClient
 	w      *submitWorld
 	second int // 0: primary behaviour; 1: transport errors; 2: CheckTx code 5
+	slow   bool
+	kind   int // node behaviour (statistics)
 }
 
 func (r *rpcStub) Remote() string { return "stub" }
 
 func (r *rpcStub) ABCIQueryWithOptions(_ context.Context, path string, data bytes.HexBytes, _ rpcclient.ABCIQueryOptions) (*coretypes.ResultABCIQuery, error) {
 	if r.second == 1 {
+		if r.slow {
+			time.Sleep(nodeSlowness)
+		}
 		return nil, fmt.Errorf("connection refused")
 	}
 	switch r.w.outcome() {
@@ -317,10 +359,17 @@ func (r *rpcStub) ABCIQueryWithOptions(_ context.Context, path string, data byte
 
 func (r *rpcStub) BroadcastTxSync(_ context.Context, txBytes cmttypes.Tx) (*coretypes.ResultBroadcastTx, error) {
 	r.w.inspect(txBytes)
+	r.w.mu.Lock()
+	r.w.nodeCalls[r.kind]++
+	r.w.mu.Unlock()
+	if r.slow {
+		time.Sleep(nodeSlowness)
+	}
 	if r.second == 1 {
 		return nil, fmt.Errorf("connection refused")
 	}
-	h := hashOf(r.w.attempt.Load())
+	at := r.w.attempt.Load()
+	h := hashOf(at)
 	if r.second == 2 {
 		return &coretypes.ResultBroadcastTx{Code: 5, Codespace: sdkerrors.RootCodespace, Log: "insufficient funds", Hash: h}, nil
 	}
@@ -334,6 +383,9 @@ func (r *rpcStub) BroadcastTxSync(_ context.Context, txBytes cmttypes.Tx) (*core
 	case oBcastOOG:
 		return &coretypes.ResultBroadcastTx{Code: sdkerrors.ErrOutOfGas.ABCICode(), Codespace: sdkerrors.RootCodespace, Log: "out of gas", Hash: h}, nil
 	}
+	r.w.mu.Lock()
+	r.w.accepted[at]++
+	r.w.mu.Unlock()
 	return &coretypes.ResultBroadcastTx{Code: 0, Hash: h}, nil
 }
 
@@ -404,7 +456,8 @@ func runSubmit(c submitCase) *pbt.Verdict {
 		c.MaxTry = 8
 	}
 	app := fx.ch.App
-	w := &submitWorld{c: &c, polls: map[string]int{}, cdc: app.AppCodec(), ir: app.InterfaceRegistry(), txCfg: app.GetTxConfig()}
+	w := &submitWorld{c: &c, polls: map[string]int{}, cdc: app.AppCodec(), ir: app.InterfaceRegistry(), txCfg: app.GetTxConfig(),
+		accepted: map[int64]int{}, txQueried: map[string]int{}, txShownOK: map[string]int{}, nodeCalls: map[int]int{}}
 	w.attempt.Store(-1)
 	w.validator = fx.ch.Vals[0].Val.String()
 	kb, err := newKeyring(app.AppCodec(), c.NKeys)
@@ -423,6 +476,35 @@ func runSubmit(c submitCase) *pbt.Verdict {
 	clients := []rpcclient.RemoteClient{&rpcStub{w: w}}
 	if c.NClients == 2 {
 		clients = append(clients, &rpcStub{w: w, second: ((c.Second % 3) + 3) % 3})
+	}
+	if len(c.Nodes) > 4 {
+		c.Nodes = c.Nodes[:4]
+	}
+	if len(c.Nodes) > 0 {
+		clients = nil
+		for _, k := range c.Nodes {
+			k = ((k % nNodeKinds) + nNodeKinds) % nNodeKinds
+			st := &rpcStub{w: w, kind: k}
+			switch k {
+			case nodeFailFast:
+				st.second = 1
+			case nodeCode:
+				st.second = 2
+			case nodeFailSlow:
+				st.second, st.slow = 1, true
+			case nodeHealthySlow:
+				st.slow = true
+			}
+			clients = append(clients, st)
+		}
+	}
+	var healthyNodes, faultyFast int
+	for _, cl := range clients {
+		if st := cl.(*rpcStub); st.second == 0 {
+			healthyNodes++
+		} else if st.second == 1 && !st.slow {
+			faultyFast++
+		}
 	}
 	pending := &sync.Map{}
 	submitCh := make(chan submitter.SignalPriceSubmission, 1)
@@ -446,7 +528,7 @@ func runSubmit(c submitCase) *pbt.Verdict {
 		pending.Store(id, struct{}{})
 	}
 
-	var injected, successes, gaveUp, keyMissing int64
+	var injected, successes, gaveUp, keyMissing, acceptedAttempts, acceptedDespiteFaultyNode int64
 	for si := range c.Subs {
 		sp := &c.Subs[si]
 		sub := submitter.SignalPriceSubmission{UUID: fmt.Sprintf("uuid-%d", si)}
@@ -483,6 +565,7 @@ func runSubmit(c submitCase) *pbt.Verdict {
 		w.cur = sp
 		w.polls = map[string]int{}
 		w.executed = nil
+		w.accepted, w.txQueried, w.txShownOK = map[int64]int{}, map[string]int{}, map[string]int{}
 		w.mu.Unlock()
 		w.attempt.Store(-1)
 
@@ -553,6 +636,28 @@ func runSubmit(c submitCase) *pbt.Verdict {
 		w.mu.Lock()
 		executed := append([]int(nil), w.executed...)
 		w.mu.Unlock()
+		// ---- oracle (6): a tx accepted by a node is followed up, the same prices are not broadcast again instead ----
+		w.mu.Lock()
+		for a := 0; a < len(executed); a++ {
+			if w.accepted[int64(a)] == 0 {
+				continue
+			}
+			acceptedAttempts++
+			hash := strings.ToLower(hex.EncodeToString(hashOf(int64(a))))
+			more := len(executed) - a - 1
+			switch {
+			case more > 0 && w.txQueried[hash] == 0:
+				v.Failf("C20/resubmitted-without-follow-up", "submission %d (%s, nodes %v): attempt %d was accepted by %d node(s) (CheckTx code 0), yet the submitter never looked for that tx and broadcast the same prices %d more time(s)",
+					si, what, nodeNames(clients), a, w.accepted[int64(a)], more)
+			case more > 0 && w.txShownOK[hash] > 0:
+				v.Failf("C20/resubmitted-after-success", "submission %d (%s, nodes %v): the tx of attempt %d was shown executed with code 0, yet the same prices were broadcast %d more time(s)",
+					si, what, nodeNames(clients), a, more)
+			}
+			if w.accepted[int64(a)] > 0 && healthyNodes < len(clients) {
+				acceptedDespiteFaultyNode++
+			}
+		}
+		w.mu.Unlock()
 		ok := false
 		for _, o := range executed {
 			if o == oOK {
@@ -592,6 +697,26 @@ func runSubmit(c submitCase) *pbt.Verdict {
 	v.Count("submissions_gave_up", gaveUp)
 	v.Count("broadcast_tx_wellformed", w.msgOK)
 	v.Count("broadcast_tx_malformed", w.msgBad)
+	v.Count("attempts_accepted_by_a_node", acceptedAttempts)
+	v.Count("attempts_accepted_while_another_node_faulty", acceptedDespiteFaultyNode)
+	for k, n := range w.nodeCalls {
+		v.Count("broadcast_calls_node_"+nodeKindName[k], int64(n))
+	}
+	if len(clients) >= 2 {
+		v.Class("B:multi-node")
+	}
+	if len(clients) >= 2 && healthyNodes >= 1 && healthyNodes < len(clients) {
+		v.Class("B:multi-node-some-faulty")
+	}
+	if healthyNodes >= 1 && faultyFast >= 1 {
+		v.Class("B:fail-fast-node-beside-healthy-node")
+		if acceptedDespiteFaultyNode > 0 {
+			v.Class("B:accepted-by-healthy-node-while-other-fails-fast")
+		}
+	}
+	if healthyNodes == 0 {
+		v.Class("B:no-healthy-node")
+	}
 	v.NonTrivial = injected > 0
 	if injected > 0 {
 		v.Class("B:injected-failure")
@@ -609,6 +734,27 @@ func runSubmit(c submitCase) *pbt.Verdict {
 		v.Class("B:failure-then-success")
 	}
 	return v
+}
+
+func nodeNames(cs []rpcclient.RemoteClient) []string {
+	var out []string
+	for _, c := range cs {
+		if st, ok := c.(*rpcStub); ok {
+			switch {
+			case st.second == 1 && st.slow:
+				out = append(out, "fail_slow")
+			case st.second == 1:
+				out = append(out, "fail_fast")
+			case st.second == 2:
+				out = append(out, "checktx_code")
+			case st.slow:
+				out = append(out, "healthy_slow")
+			default:
+				out = append(out, "healthy")
+			}
+		}
+	}
+	return out
 }
 
 func names(os []int) []string {
